@@ -330,6 +330,18 @@ Theorem analysis_covers P pt fuel s a a' st st' :
   analyse fuel pt s a = Some a' -> covers P pt a st -> exec s st st' -> covers P pt a' st'.
 Proof. intros Ha Hc He. destruct (sound P pt fuel s a a' st st' Ha Hc He) as [C _]. exact C. Qed.
 
+Lemma result_ok_inv p a :
+  result_ok p a = true -> ret_fresh p = true ->
+  exists ts, closed a ts = true /\ subset Nat.eqb (dvars a (rets p)) ts = true /\
+             existsb (ptf (protected p)) ts = false.
+Proof.
+  unfold result_ok. intros H RF. rewrite RF in H.
+  generalize dependent (close LOOP_FUEL a (dvars a (rets p))). intros ts H.
+  change (negb true) with false in H. rewrite orb_false_l in H.
+  apply andb_true_iff in H. destruct H as [H NP]. apply andb_true_iff in H. destruct H as [Hcl Hsub].
+  exists ts. split; [exact Hcl|]. split; [exact Hsub|]. apply negb_true_iff. exact NP.
+Qed.
+
 (* what `pure p = true` means *)
 Theorem pure_sound p P st st' :
   pure p = true -> covers P (ptf (protected p)) (entry p) st -> exec (body p) st st' ->
@@ -340,15 +352,14 @@ Proof.
   unfold pure. intros Hp Hc He.
   destruct (analyse LOOP_FUEL (ptf (protected p)) (body p) (entry p)) as [a'|] eqn:A; [|discriminate].
   destruct (sound P _ _ _ _ _ _ _ A Hc He) as [C U]. split; [exact U|].
-  intros RF x l l' Hx Hl R. unfold result_ok in Hp. rewrite RF in Hp. cbn [negb orb] in Hp.
-  apply andb_true_iff in Hp. destruct Hp as [Hp NP]. apply andb_true_iff in Hp. destruct Hp as [Hcl Hsub].
-  set (ts := close LOOP_FUEL a' (dvars a' (rets p))) in *.
+  intros RF x l l' Hx Hl R.
+  destruct (result_ok_inv p a' Hp RF) as [ts [Hcl [Hsub NP]]].
   assert (T : In (tagof st' l) ts).
   { eapply subset_In in Hsub; [exact Hsub|exact nateqb_ok|]. apply In_dvars. exists x. split; [exact Hx|].
     destruct C as [C1 _]. apply (C1 x l Hl). }
   pose proof (reach_closed P _ a' st' ts C Hcl l l' R T) as T'.
   destruct (P l') eqn:Pl; [|reflexivity]. exfalso.
   destruct C as [_ [_ C3]]. destruct (C3 l' Pl) as [Q _].
-  apply negb_true_iff in NP. assert (X : existsb (ptf (protected p)) ts = true) by (apply existsb_exists; eauto).
-  congruence.
+  assert (X : existsb (ptf (protected p)) ts = true) by (apply existsb_exists; eauto).
+  rewrite X in NP. discriminate NP.
 Qed.
